@@ -605,10 +605,13 @@ class Parser:
                 if '\n' in txt:
                     pos = txt.find('\n') + 1
                     t2.txt = txt[pos:]
-                    t2.pos += pos
+                    if not t2.pos_fix:
+                        # NB: text from a macro body stays at the call
+                        t2.pos += pos
                 else:
                     t2.txt = ''
-                    t2.pos += len(txt)
+                    if not t2.pos_fix:
+                        t2.pos += len(txt)
                 buf = [t1] + lang_toks
                 tokens.append(eval(t2))
                 # NB: we deleted a line break
